@@ -330,11 +330,19 @@ example : ∃ ls s, Dsh.Fan.Exec (Dsh.Fan.init .whileWait 1 ["foo1".toList, "bar
   rw [hs] at hd
   exact Option.some.inj hd
 
-/-! ### the buffer loop of `list_push_hostlist` (D2) -/
-/-- TERMINATION (repaired D2): the loop stops within 12 doublings whatever the length of the
-    exclusion text -/
+/-! ### the buffer loop of `list_push_hostlist` (D2, F02-XFILE-4MIB) -/
+/-- TERMINATION (the repaired loop of /repo b20e58e, no ceiling): whatever the length of the exclusion text the loop
+    ends within the fuel the driver passes (`PUSH_FUEL`, inside it `GROW_FUEL` = 52 doublings from 4096 to 2^63) -/
 theorem pushHostlist_terminates (len : Nat) : ∃ n, pushLoop true len PUSH_FUEL 4096 = some n :=
-  pushLoop_fixed_terminates len 12 4096 (by decide)
+  pushLoop_fixed_terminates len
+
+/-- `pushHostlistR` (the repaired `list_push_hostlist`) TERMINATES FOR EVERY LIST, and never hands on a cut text:
+    the entry pushed on `exclude_list` is the whole ranged text of the exclusion file, or — only when that text has
+    2^63 - 1 bytes or more, where `n` can no longer be doubled in a `size_t` — pdsh ends with a diagnostic -/
+theorem pushHostlistR_terminates_whole (hl : EL) :
+    pushHostlistR hl = .ok (rangedText hl.ranges) ∨
+    (pushHostlistR hl = .error (.fatal "exclusion list too long") ∧ (rangedText hl.ranges).length ≥ 2 ^ 63 - 1) :=
+  pushHostlist_fixed Cfg.repaired rfl hl
 
 /-- D2: the unchanged loop (`n*=2 < 0x7fffff`, i.e. `n *= 1`) never ends once the ranged form of an
     exclusion file needs 4095 bytes or more — no amount of fuel gets `pdsh` out of `opt_args` -/
@@ -349,23 +357,37 @@ theorem pushHostlist_unchanged_small (len : Nat) (h : len < 4095) (fuel : Nat) :
   have : ¬ len ≥ 4096 - 1 := by omega
   simp [this]
 
-/-- EXCLUSION FILE, D2 repaired: as long as the ranged form of the file is shorter than 2^22 - 1 bytes the entry
-    pushed on `exclude_list` is the whole text ... -/
+/-- EXCLUSION FILE, D2 repaired (every `cfg` with the switch; the model `pdshmodel hl xcl` runs with the probed
+    one): the entry pushed on `exclude_list` is the WHOLE ranged text — no ceiling at 4 MiB or anywhere else a
+    text can reach -/
 theorem exclusion_file_whole (cfg : Cfg) (hfix : cfg.fixPushLoop = true) (hl : EL)
-    (h : (rangedText hl.ranges).length < 2 ^ 22 - 1) : pushHostlist cfg hl = .ok (rangedText hl.ranges) :=
+    (h : (rangedText hl.ranges).length < 2 ^ 63 - 1) : pushHostlist cfg hl = .ok (rangedText hl.ranges) :=
   pushHostlist_whole cfg hfix hl h
 
-/-- ... F02-XFILE-4MIB: from 2^22 - 1 bytes on the ceiling `0x7fffff` ends the loop after the attempt with a
-    4 MiB block, whose CUT text is pushed: the hosts behind the cut are still contacted (observed on the real pdsh:
-    a file of 10^6 names, the 500 000th and the last are contacted).  The statement of the property
-    ("whatever the size of the exclusion list") is FALSE of the code from that size on; the model stops there. -/
-theorem exclusion_file_cut (cfg : Cfg) (hfix : cfg.fixPushLoop = true) (hl : EL)
-    (h : (rangedText hl.ranges).length ≥ 2 ^ 22 - 1) :
-    pushHostlist cfg hl = .error (.ub "exclusion text cut at 4 MiB") :=
-  pushHostlist_cut cfg hfix hl h
+/-- `pushHostlistR` IS `pushHostlist` under the D2 switch -/
+theorem exclusion_file_repaired (cfg : Cfg) (hfix : cfg.fixPushLoop = true) (hl : EL) :
+    pushHostlist cfg hl = pushHostlistR hl :=
+  pushHostlist_eq_R cfg hfix hl
 
-/-- the loop without ceiling (findings/C02-XFILE4M.patch) hands on the whole text whatever its length -/
-theorem exclusion_file_repaired (hl : EL) : pushHostlistR hl = .ok (rangedText hl.ranges) := rfl
+/-- non-vacuity: a list of two records (`a`, `b[1-2]`), its ranged text, pushed whole -/
+example : pushHostlistR ⟨[⟨0, ⟨"a".toList, 0, 0, 0, true⟩⟩, ⟨1, ⟨"b".toList, 1, 2, 1, false⟩⟩], 3, 2, []⟩ =
+    .ok "a,b[1-2]".toList := by
+  rw [← exclusion_file_repaired Cfg.repaired rfl, exclusion_file_whole Cfg.repaired rfl _ (by decide)]
+  exact congrArg Except.ok (by decide)
+
+/-- F02-XFILE-4MIB (repaired in /repo by b20e58e; the loop as it was before, `pushHostlistCeil`, is NOT what the
+    model executes): with the ceiling `(n *= 2) < 0x7fffff` the entry was whole below 2^22 - 1 bytes ... -/
+theorem exclusion_file_ceiling_whole (hl : EL) (h : (rangedText hl.ranges).length < 2 ^ 22 - 1) :
+    pushHostlistCeil hl = .ok (rangedText hl.ranges) :=
+  pushHostlistCeil_whole hl h
+
+/-- ... and from 2^22 - 1 bytes on the ceiling ended the loop after the attempt with a 4 MiB block, whose CUT text
+    was pushed: the hosts behind the cut were still contacted (observed on the real pdsh before b20e58e: a file of
+    10^6 names, the 500 000th and the last are contacted).  A revert of b20e58e is reported by the check with the
+    file of exactly 2^22 - 1 bytes as replay (checks/c02.py `big_xfile`). -/
+theorem exclusion_file_cut (hl : EL) (h : (rangedText hl.ranges).length ≥ 2 ^ 22 - 1) :
+    pushHostlistCeil hl = .error (.ub "exclusion text cut at 4 MiB") :=
+  pushHostlistCeil_cut hl h
 
 /-! ### the specification -/
 /-- ORDER INDEPENDENCE: exclusions and filters may stand anywhere among the targets (and in any
